@@ -32,7 +32,11 @@ def alphabet(for_eh):
          ('undefined', 0), ('undefined', 17), ('same_value', 3), ('offset', 6, 2), ('offset', 17, 0), ('offset', 16, 3), ('offset_extended', 200, 1),
          ('offset_extended_sf', 6, -3), ('val_offset', 5, 1), ('val_offset_sf', 5, -1), ('register', 3, 4), ('expression', 8, BLK2), ('val_expression', 8, BLK0),
          ('restore', 6), ('restore', 16), ('restore_extended', 200), ('restore_extended', 16), ('remember_state',), ('restore_state',), ('GNU_args_size', 16),
-         ('negate_ra_state',)]
+         ('negate_ra_state',),
+         # unsigned LEB128 operands whose last byte has bit 6 set (64..127, 8192..16383): a signed read turns them negative
+         ('def_cfa', 7, 100), ('def_cfa_offset', 100), ('offset_extended', 70, 100), ('val_offset', 5, 100), ('GNU_args_size', 8200), ('def_cfa_register', 100), ('register', 70, 100),
+         ('undefined', 100), ('same_value', 100), ('restore_extended', 100), ('expression', 100, BLK2), ('val_expression', 100, BLK0), ('def_cfa_sf', 100, -2), ('offset_extended_sf', 100, -3),
+         ('val_offset_sf', 100, -1)]
     if not for_eh:
         L.append(('set_loc', 0x2000))
     return L
